@@ -17,8 +17,8 @@ PLAN = dict(
         "the outer task_group's own context is reset by wait(); it is only checked for that reset"],
     floor=dict(quick=500, thorough=5000),
     tiers=dict(
-        quick=[det("rel", H, "cs-rel", 16, 200, 4, tso=True, time_cap=20),
-               det("dbg", H, "cs-dbg", 16, 80, 4, tso=True, time_cap=12),
+        quick=[det("rel", H, "cs-rel", 16, 400, 4, tso=True, time_cap=35),
+               det("dbg", H, "cs-dbg", 16, 160, 4, tso=True, time_cap=25),
                det("directed-cancel-before-first-use", H, "cs-rel", 1, 6, 3, tso=True, time_cap=10, args=["--witness2"])],
         thorough=[det("rel", H, "cs-rel", 16, 2600, 5, tso=True, time_cap=280),
                   det("dbg", H, "cs-dbg", 16, 700, 5, tso=True, time_cap=130),
